@@ -1060,3 +1060,1124 @@ Proof.
   apply sorted_gt_unique; try assumption.
   intros x. rewrite R3, M2. reflexivity.
 Qed.
+
+(* ---------------------------------------------------------------------------------------------- *)
+(* association lists, positions                                                                    *)
+
+Lemma sorted_gt_NoDup l : StronglySorted Z.gt l -> NoDup l.
+Proof.
+  induction 1 as [|a r Hs IH Hf]; constructor; [|exact IH].
+  intros Hin. rewrite Forall_forall in Hf. specialize (Hf a Hin). lia.
+Qed.
+
+Lemma sorted_lt_NoDup l : StronglySorted Z.lt l -> NoDup l.
+Proof.
+  induction 1 as [|a r Hs IH Hf]; constructor; [|exact IH].
+  intros Hin. rewrite Forall_forall in Hf. specialize (Hf a Hin). lia.
+Qed.
+
+Lemma pos_of_None x l : pos_of x l = None <-> ~ In x l.
+Proof.
+  induction l as [|y r IH]; cbn [pos_of In]; [tauto|].
+  destruct (x =? y) eqn:E.
+  - apply Z.eqb_eq in E. subst. split; [discriminate|tauto].
+  - apply Z.eqb_neq in E. destruct (pos_of x r); cbn [option_map].
+    + split; [discriminate|]. intros Hn. exfalso.
+      assert (Hq : ~ In x r) by tauto. apply IH in Hq. discriminate.
+    + split; [|reflexivity]. intros _ [Hy|Hy]; [congruence|]. apply (proj1 IH eq_refl). exact Hy.
+Qed.
+
+Lemma pos_of_Some x l j : pos_of x l = Some j -> (j < length l)%nat /\ nth j l 0 = x.
+Proof.
+  revert j. induction l as [|y r IH]; intros j; cbn [pos_of]; [discriminate|].
+  destruct (x =? y) eqn:E.
+  - apply Z.eqb_eq in E. subst. intros Hj. inversion Hj. subst. cbn. split; [lia|reflexivity].
+  - destruct (pos_of x r) as [j'|]; cbn [option_map]; [|discriminate].
+    intros Hj. inversion Hj. subst. destruct (IH j' eq_refl) as [I1 I2]. cbn. split; [lia|exact I2].
+Qed.
+
+Section Maps.
+  Variable D : Type.
+  Variable dflt : D.
+  Notation mget := (mget D).
+
+  Lemma mget_app (a b : pmap D) k :
+    mget (a ++ b) k = match mget a k with Some v => Some v | None => mget b k end.
+  Proof.
+    induction a as [|[k' v] r IH]; [reflexivity|].
+    cbn [app Merkle.mget]. destruct (k =? k'); [reflexivity|exact IH].
+  Qed.
+
+  Lemma mget_In (mp : pmap D) k v : mget mp k = Some v -> In (k, v) mp.
+  Proof.
+    induction mp as [|[k' v'] r IH]; cbn [Merkle.mget]; [discriminate|].
+    destruct (k =? k') eqn:E.
+    - apply Z.eqb_eq in E. subst. intros Hv. inversion Hv. left. reflexivity.
+    - intros Hv. right. now apply IH.
+  Qed.
+
+  Lemma mget_notin (mp : pmap D) k : ~ In k (map fst mp) -> mget mp k = None.
+  Proof.
+    induction mp as [|[k' v'] r IH]; cbn [Merkle.mget map fst In]; [reflexivity|].
+    intros Hn. destruct (k =? k') eqn:E; [apply Z.eqb_eq in E; subst; tauto|]. apply IH. tauto.
+  Qed.
+
+  (* the map built from the authentication structure: node M[j] holds A[j] *)
+  Lemma mget_combine (M : list Z) : forall (A : list D) x,
+    NoDup M -> length A = length M ->
+    mget (rev (combine M A)) x =
+      match pos_of x M with Some j => Some (nth j A dflt) | None => None end.
+  Proof.
+    induction M as [|y r IH]; intros A x Hnd Hlen.
+    - destruct A; reflexivity.
+    - destruct A as [|a A']; [discriminate|]. cbn [combine rev pos_of].
+      inversion Hnd as [|? ? Hy Hnd']; subst. cbn [length] in Hlen.
+      rewrite mget_app, IH by (try assumption; lia).
+      destruct (x =? y) eqn:E.
+      + apply Z.eqb_eq in E. subst x.
+        assert (Hp : pos_of y r = None) by (apply pos_of_None; exact Hy).
+        rewrite Hp. cbn [Merkle.mget]. rewrite Z.eqb_refl. reflexivity.
+      + destruct (pos_of x r) as [j|]; cbn [option_map nth]; [reflexivity|].
+        cbn [Merkle.mget]. rewrite E. reflexivity.
+  Qed.
+
+  Lemma find_leaf_In (L : list (Z * D)) i d : find_leaf L i = Some d -> In (i, d) L.
+  Proof.
+    induction L as [|[j e] r IH]; cbn [find_leaf]; [discriminate|].
+    destruct (i =? j) eqn:E.
+    - apply Z.eqb_eq in E. subst. intros Hv. inversion Hv. left. reflexivity.
+    - intros Hv. right. now apply IH.
+  Qed.
+
+  Lemma find_leaf_None (L : list (Z * D)) i : find_leaf L i = None <-> ~ In i (map fst L).
+  Proof.
+    induction L as [|[j e] r IH]; cbn [find_leaf map fst In]; [tauto|].
+    destruct (i =? j) eqn:E.
+    - apply Z.eqb_eq in E. subst. split; [discriminate|tauto].
+    - apply Z.eqb_neq in E. rewrite IH. split; [intros Hn [Hj|Hj]; [congruence|tauto]|tauto].
+  Qed.
+End Maps.
+
+Section Verify.
+  Variable D : Type.
+  Variable H : D -> D -> D.
+  Variable Deqb : D -> D -> bool.
+  Variable dflt : D.
+  Hypothesis Deqb_spec : forall a b, Deqb a b = true <-> a = b.
+  Notation mget := (mget D).
+  Notation add_leafs := (add_leafs D Deqb).
+
+  Lemma Deqb_refl a : Deqb a a = true.
+  Proof. now apply Deqb_spec. Qed.
+
+  (* ---------------------------------------------------------------- add_leafs *)
+  Lemma add_leafs_sound m n : 0 <= n -> forall (L : list (Z * D)) nodes nodes',
+    (forall i, In i (map fst L) -> 0 <= i /\ i + n < USZ) ->
+    add_leafs m n L nodes = Ok nodes' ->
+    (forall x v, mget nodes x = Some v -> mget nodes' x = Some v) /\
+    (forall i d, In (i, d) L -> mget nodes' (i + n) = Some d).
+  Proof.
+    intros Hn. induction L as [|[i d] r IH]; intros nodes nodes' Hr Hok.
+    - cbn in Hok. inversion Hok. subst. split; [auto|intros ? ? []].
+    - cbn [Merkle.add_leafs] in Hok.
+      assert (Hi : 0 <= i /\ i + n < USZ) by (apply Hr; left; reflexivity).
+      rewrite uadd_ok in Hok by lia. cbn [obind] in Hok.
+      assert (Hr' : forall j, In j (map fst r) -> 0 <= j /\ j + n < USZ) by (intros; apply Hr; right; assumption).
+      destruct (mget nodes (i + n)) as [d'|] eqn:Eg.
+      + destruct (Deqb d' d) eqn:Ed; [|discriminate]. apply Deqb_spec in Ed. subst d'.
+        destruct (IH nodes nodes' Hr' Hok) as [I1 I2]. split; [exact I1|].
+        intros j e [Hje|Hje]; [inversion Hje; subst; apply I1; exact Eg|apply I2; exact Hje].
+      + destruct (IH _ nodes' Hr' Hok) as [I1 I2]. split.
+        * intros x v Hx. apply I1. cbn [Merkle.mget].
+          destruct (x =? i + n) eqn:E; [apply Z.eqb_eq in E; subst; congruence|exact Hx].
+        * intros j e [Hje|Hje]; [|apply I2; exact Hje]. inversion Hje; subst.
+          apply I1. cbn [Merkle.mget]. rewrite Z.eqb_refl. reflexivity.
+  Qed.
+
+  Lemma add_leafs_consistent m n (L : list (Z * D)) nodes nodes' : 0 <= n ->
+    (forall i, In i (map fst L) -> 0 <= i /\ i + n < USZ) ->
+    add_leafs m n L nodes = Ok nodes' -> consistent D L.
+  Proof.
+    intros Hn Hr Hok. destruct (add_leafs_sound m n Hn L nodes nodes' Hr Hok) as [_ I2].
+    intros i d d' H1 H2. pose proof (I2 i d H1) as E1. pose proof (I2 i d' H2) as E2. congruence.
+  Qed.
+
+  Lemma add_leafs_ok m n : 0 <= n -> forall (L : list (Z * D)) nodes,
+    (forall i, In i (map fst L) -> 0 <= i /\ i + n < USZ) ->
+    consistent D L ->
+    (forall i d d', In (i, d) L -> mget nodes (i + n) = Some d' -> d' = d) ->
+    exists nodes', add_leafs m n L nodes = Ok nodes' /\
+      forall x, mget nodes' x = match find_leaf L (x - n) with Some d => Some d | None => mget nodes x end.
+  Proof.
+    intros Hn. induction L as [|[i d] r IH]; intros nodes Hr Hc Hp.
+    - exists nodes. split; [reflexivity|]. intros x. reflexivity.
+    - cbn [Merkle.add_leafs].
+      assert (Hi : 0 <= i /\ i + n < USZ) by (apply Hr; left; reflexivity).
+      rewrite uadd_ok by lia. cbn [obind].
+      assert (Hr' : forall j, In j (map fst r) -> 0 <= j /\ j + n < USZ) by (intros; apply Hr; right; assumption).
+      assert (Hc' : consistent D r).
+      { intros j e e' H1 H2. apply (Hc j); right; assumption. }
+      destruct (mget nodes (i + n)) as [d'|] eqn:Eg.
+      + assert (d' = d) by (apply (Hp i d d'); [left; reflexivity|exact Eg]). subst d'.
+        rewrite Deqb_refl.
+        destruct (IH nodes Hr' Hc') as [nodes' [N1 N2]].
+        { intros j e e' Hj. apply Hp. right. exact Hj. }
+        exists nodes'. split; [exact N1|]. intros x. rewrite N2. cbn [find_leaf].
+        destruct (x - n =? i) eqn:E; [|reflexivity].
+        apply Z.eqb_eq in E. rewrite E.
+        destruct (find_leaf r i) as [e|] eqn:Ef; [|replace x with (i + n) by lia; exact Eg].
+        apply find_leaf_In in Ef. f_equal. apply (Hc i); [right; exact Ef|left; reflexivity].
+      + destruct (IH ((i + n, d) :: nodes) Hr' Hc') as [nodes' [N1 N2]].
+        { intros j e e' Hj. cbn [Merkle.mget]. destruct (j + n =? i + n) eqn:E.
+          - apply Z.eqb_eq in E. assert (j = i) by lia. subst j. intros He. inversion He. subst.
+            apply (Hc i); [left; reflexivity|right; exact Hj].
+          - apply Hp. right. exact Hj. }
+        exists nodes'. split; [exact N1|]. intros x. rewrite N2. cbn [find_leaf Merkle.mget].
+        destruct (x - n =? i) eqn:E.
+        * apply Z.eqb_eq in E. replace (x =? i + n) with true by (symmetry; apply Z.eqb_eq; lia).
+          rewrite E. destruct (find_leaf r i) as [e|] eqn:Ef; [|reflexivity].
+          apply find_leaf_In in Ef. f_equal. apply (Hc i); [right; exact Ef|left; reflexivity].
+        * apply Z.eqb_neq in E. replace (x =? i + n) with false by (symmetry; apply Z.eqb_neq; lia). reflexivity.
+  Qed.
+
+  Lemma add_leafs_total m n : 0 <= n -> forall (L : list (Z * D)) nodes,
+    (forall i, In i (map fst L) -> 0 <= i /\ i + n < USZ) ->
+    (exists nodes', add_leafs m n L nodes = Ok nodes') \/ add_leafs m n L nodes = Err.
+  Proof.
+    intros Hn. induction L as [|[i d] r IH]; intros nodes Hr.
+    - left. eexists. reflexivity.
+    - cbn [Merkle.add_leafs].
+      assert (Hi : 0 <= i /\ i + n < USZ) by (apply Hr; left; reflexivity).
+      rewrite uadd_ok by lia. cbn [obind].
+      assert (Hr' : forall j, In j (map fst r) -> 0 <= j /\ j + n < USZ) by (intros; apply Hr; right; assumption).
+      destruct (mget nodes (i + n)); [destruct (Deqb d0 d); [|right; reflexivity]|]; apply IH; exact Hr'.
+  Qed.
+
+  (* ---------------------------------------------------------------- one layer of fill() *)
+  Definition hc (nodes : pmap D) (p : Z) : option D :=
+    match mget nodes (2 * p), mget nodes (2 * p + 1) with
+    | Some a, Some b => Some (H a b)
+    | _, _ => None
+    end.
+
+  Lemma lxor_double p : Z.lxor (p * 2) 1 = 2 * p + 1.
+  Proof.
+    change (Z.lxor (p * 2) 1) with (sibling (p * 2)). rewrite sibling_even; [lia|].
+    rewrite Z.mul_comm. apply Z.even_mul.
+  Qed.
+
+  Lemma fill_layer_gen m : forall parents nodes,
+    NoDup parents ->
+    (forall p, In p parents ->
+       p * 2 < USZ /\ (exists a b, mget nodes (2 * p) = Some a /\ mget nodes (2 * p + 1) = Some b) /\
+       mget nodes p = None /\ ~ In (2 * p) parents /\ ~ In (2 * p + 1) parents) ->
+    exists nodes', fill_layer D H m nodes parents = Ok nodes' /\
+      forall x, mget nodes' x = if zmem x parents then hc nodes x else mget nodes x.
+  Proof.
+    induction parents as [|p r IH]; intros nodes Hnd Hp.
+    - exists nodes. split; [reflexivity|]. intros x. reflexivity.
+    - cbn [fill_layer].
+      destruct (Hp p (or_introl eq_refl)) as [P1 [[a [b [P2 P3]]] [P4 [P5 P6]]]].
+      rewrite umul_ok by exact P1. cbn [obind]. rewrite lxor_double.
+      replace (p * 2) with (2 * p) by lia. rewrite P2, P3, P4.
+      inversion Hnd as [|? ? Hpr Hnd']; subst.
+      destruct (IH ((p, H a b) :: nodes) Hnd') as [nodes' [N1 N2]].
+      { intros q Hq. destruct (Hp q (or_intror Hq)) as [Q1 [[a' [b' [Q2 Q3]]] [Q4 [Q5 Q6]]]].
+        assert (q <> p) by (intros ->; tauto).
+        assert (2 * q <> p) by (intros E; apply Q5; left; lia).
+        assert (2 * q + 1 <> p) by (intros E; apply Q6; left; lia).
+        split; [exact Q1|]. cbn [Merkle.mget].
+        replace (2 * q =? p) with false by (symmetry; apply Z.eqb_neq; lia).
+        replace (2 * q + 1 =? p) with false by (symmetry; apply Z.eqb_neq; lia).
+        replace (q =? p) with false by (symmetry; apply Z.eqb_neq; lia).
+        split; [exists a', b'; tauto|]. split; [exact Q4|]. split; intros Hin; [apply Q5|apply Q6]; right; exact Hin. }
+      exists nodes'. split; [exact N1|]. intros x. rewrite N2.
+      unfold zmem. cbn [existsb]. fold (zmem x r).
+      destruct (zmem x r) eqn:Ez.
+      + rewrite orb_true_r. apply zmem_In in Ez.
+        destruct (Hp x (or_intror Ez)) as [_ [_ [_ [Q5 Q6]]]].
+        unfold hc. cbn [Merkle.mget].
+        replace (2 * x =? p) with false by (symmetry; apply Z.eqb_neq; intros E; apply Q5; left; lia).
+        replace (2 * x + 1 =? p) with false by (symmetry; apply Z.eqb_neq; intros E; apply Q6; left; lia).
+        reflexivity.
+      + rewrite orb_false_r. cbn [Merkle.mget]. destruct (x =? p) eqn:E.
+        * apply Z.eqb_eq in E. subst x. unfold hc. rewrite P2, P3. reflexivity.
+        * reflexivity.
+  Qed.
+
+  (* ---------------------------------------------------------------- levels of the partial tree *)
+  Lemma pow2_split a e : 0 <= e <= a -> 2 ^ a = 2 ^ (a - e) * 2 ^ e.
+  Proof. intros. rewrite <- Z.pow_add_r by lia. f_equal. lia. Qed.
+
+  Lemma pow2_interval_unique a b y : 0 <= a -> 0 <= b ->
+    2 ^ a <= y < 2 ^ (a + 1) -> 2 ^ b <= y < 2 ^ (b + 1) -> a = b.
+  Proof.
+    intros Ha Hb H1 H2. rewrite <- (Z.log2_unique y a) by lia. now apply Z.log2_unique.
+  Qed.
+
+  Lemma div_pow2_succ' x k : 0 <= k -> x / 2 ^ k / 2 = x / 2 ^ (k + 1).
+  Proof.
+    intros Hk. rewrite Z.div_div by (try apply Z.pow_pos_nonneg; lia).
+    rewrite Z.pow_add_r by lia. reflexivity.
+  Qed.
+
+  Lemma nonempty_fst (L : list (Z * D)) : L <> [] -> exists i, In i (map fst L).
+  Proof. destruct L as [|[i d] r]; [congruence|]. intros _. exists i. left. reflexivity. Qed.
+
+  Section Fill.
+    Variable h : Z.
+    Variable L : list (Z * D).
+    Variable A : list D.
+    Let n := 2 ^ h.
+    Let idxs := map fst L.
+    Let M := minimal_list n idxs.
+    Hypothesis Hh : 0 <= h <= 31.
+    Hypothesis Hidx : forall i, In i idxs -> 0 <= i < n.
+    Hypothesis HlenA : length A = length M.
+
+    Definition onp (e x : Z) : Prop := exists i, In i idxs /\ x = (n + i) / 2 ^ e.
+    Notation V := (val_in D H dflt M n L A).
+
+    Lemma n_pos : 1 <= n.
+    Proof. unfold n. pose proof (Z.pow_pos_nonneg 2 h). lia. Qed.
+    Lemma n_small : n <= 2 ^ 31.
+    Proof. unfold n. apply Z.pow_le_mono_r; lia. Qed.
+
+    Lemma onp_range e x : 0 <= e <= h -> onp e x -> 2 ^ (h - e) <= x < 2 ^ (h - e + 1).
+    Proof.
+      intros He [i [Hi ->]]. pose proof (Hidx i Hi) as Hii.
+      assert (En : n = 2 ^ (h - e) * 2 ^ e) by (unfold n; apply pow2_split; lia).
+      pose proof (Z.pow_pos_nonneg 2 e). pose proof (Z.pow_pos_nonneg 2 (h - e)).
+      rewrite Z.pow_add_r by lia. change (2 ^ 1) with 2.
+      split.
+      - apply Z.div_le_lower_bound; [lia|]. nia.
+      - apply Z.div_lt_upper_bound; [lia|]. nia.
+    Qed.
+
+    Lemma onp_step e x : 0 <= e -> onp e x -> onp (e + 1) (x / 2).
+    Proof.
+      intros He [i [Hi ->]]. exists i. split; [exact Hi|]. rewrite div_pow2_succ' by lia. reflexivity.
+    Qed.
+
+    Lemma onp_child e x : 1 <= e -> onp e x -> exists c, onp (e - 1) c /\ c / 2 = x.
+    Proof.
+      intros He [i [Hi ->]]. exists ((n + i) / 2 ^ (e - 1)). split; [exists i; tauto|].
+      rewrite div_pow2_succ' by lia. f_equal. f_equal. lia.
+    Qed.
+
+    Lemma onp_level_unique e e' x : 0 <= e <= h -> 0 <= e' <= h -> onp e x -> onp e' x -> e = e'.
+    Proof.
+      intros He He' H1 H2. apply onp_range in H1; [|lia]. apply onp_range in H2; [|lia].
+      assert (h - e = h - e') by (apply (pow2_interval_unique _ _ x); lia). lia.
+    Qed.
+
+    Lemma onp_computable e x : 0 <= e < h -> onp e x -> computable n idxs x.
+    Proof.
+      intros He Ho. pose proof (onp_range e x ltac:(lia) Ho) as Hr.
+      destruct Ho as [i [Hi ->]]. split.
+      - assert (2 ^ 1 <= 2 ^ (h - e)) by (apply Z.pow_le_mono_r; lia). change (2 ^ 1) with 2 in *. lia.
+      - exists i. split; [exact Hi|]. exists e. split; [lia|reflexivity].
+    Qed.
+
+    Lemma computable_onp x : computable n idxs x -> exists e, 0 <= e < h /\ onp e x.
+    Proof.
+      intros [Hx [i [Hi [k [Hk Hxk]]]]]. exists k. split; [|exists i; tauto]. split; [exact Hk|].
+      destruct (Z_lt_dec k h) as [Hlt|Hge]; [exact Hlt|]. exfalso.
+      pose proof (Hidx i Hi) as Hii.
+      assert (2 ^ h <= 2 ^ k) by (apply Z.pow_le_mono_r; lia). fold n in H0.
+      assert ((n + i) / 2 ^ k < 2).
+      { apply Z.div_lt_upper_bound; [pose proof n_pos; lia|]. lia. }
+      lia.
+    Qed.
+
+    Lemma M_spec : StronglySorted Z.gt M /\ forall x, In x M <-> minimal n idxs x.
+    Proof. apply minimal_list_spec; [apply n_pos|exact Hidx]. Qed.
+
+    Lemma M_not_onp e x : 0 <= e <= h -> onp e x -> ~ In x M.
+    Proof.
+      intros He Ho Hin. destruct M_spec as [_ Hm]. apply Hm in Hin.
+      pose proof (minimal_range n idxs x n_pos Hidx Hin) as Hr.
+      destruct Hin as [_ Hnc]. apply Hnc.
+      destruct Ho as [i [Hi ->]]. split; [lia|]. exists i. split; [exact Hi|]. exists e. split; [lia|reflexivity].
+    Qed.
+
+    Lemma M_not_claimed x : In x M -> find_leaf L (x - n) = None.
+    Proof.
+      intros Hin. apply find_leaf_None. intros Hc. fold idxs in Hc.
+      apply (M_not_onp 0 x); [lia| |exact Hin]. exists (x - n). split; [exact Hc|].
+      rewrite Z.div_1_r. lia.
+    Qed.
+
+    Lemma val_M k x j : pos_of x M = Some j -> V k x = nth j A dflt.
+    Proof.
+      intros Hp. assert (Hin : In x M).
+      { destruct (pos_of_Some x M j Hp) as [P1 P2]. rewrite <- P2. apply nth_In. exact P1. }
+      destruct k; cbn [val_in]; rewrite M_not_claimed by exact Hin; rewrite Hp; reflexivity.
+    Qed.
+
+    Lemma val_inner e x : 1 <= e <= h -> onp e x ->
+      V (Z.to_nat e) x = H (V (Z.to_nat (e - 1)) (2 * x)) (V (Z.to_nat (e - 1)) (2 * x + 1)).
+    Proof.
+      intros He Ho. replace (Z.to_nat e) with (S (Z.to_nat (e - 1))) by lia. cbn [val_in].
+      pose proof (onp_range e x ltac:(lia) Ho) as Hr.
+      assert (Hxn : x < n).
+      { unfold n. assert (2 ^ (h - e + 1) <= 2 ^ h) by (apply Z.pow_le_mono_r; lia). lia. }
+      assert (Hf : find_leaf L (x - n) = None).
+      { apply find_leaf_None. intros Hc. fold idxs in Hc. pose proof (Hidx _ Hc). lia. }
+      rewrite Hf.
+      assert (Hp : pos_of x M = None) by (apply pos_of_None; apply (M_not_onp e); [lia|exact Ho]).
+      rewrite Hp. reflexivity.
+    Qed.
+
+    Definition InvA (e : Z) (nodes : pmap D) : Prop :=
+      (forall x j, pos_of x M = Some j -> mget nodes x = Some (nth j A dflt)) /\
+      (forall e' x, 0 <= e' < e -> onp e' x -> mget nodes x = Some (V (Z.to_nat e') x)).
+    Definition InvB (e : Z) (nodes : pmap D) : Prop :=
+      forall x, mget nodes x <> None -> In x M \/ exists e', 0 <= e' < e /\ onp e' x.
+
+    Lemma sibling_of_half c y : c / 2 = y / 2 -> y <> c -> y = spec_sibling c.
+    Proof.
+      intros Hh2 Hne. unfold spec_sibling. destruct (Z.even c) eqn:Ec.
+      - apply Zeven_bool_iff in Ec. apply Zeven_ex_iff in Ec. destruct Ec as [q ->]. lia.
+      - rewrite <- Z.negb_odd in Ec. apply negb_false_iff in Ec.
+        apply Zodd_bool_iff in Ec. apply Zodd_ex_iff in Ec. destruct Ec as [q ->]. lia.
+    Qed.
+
+    Lemma child_known e x y nodes : 1 <= e <= h -> onp e x -> InvA e nodes -> y / 2 = x ->
+      mget nodes y = Some (V (Z.to_nat (e - 1)) y).
+    Proof.
+      intros He Ho [IA1 IA2] Hy.
+      destruct (onp_child e x ltac:(lia) Ho) as [c [Hc1 Hc2]].
+      destruct (Z.eq_dec y c) as [->|Hne]; [apply IA2; [lia|exact Hc1]|].
+      assert (Ey : y = spec_sibling c) by (apply sibling_of_half; [lia|exact Hne]).
+      pose proof (onp_range (e - 1) c ltac:(lia) Hc1) as Hrc.
+      pose proof (onp_range e x ltac:(lia) Ho) as Hrx.
+      assert (E2 : 2 ^ (h - (e - 1)) = 2 * 2 ^ (h - e)).
+      { replace (h - (e - 1)) with (h - e + 1) by lia. rewrite Z.pow_add_r by lia. lia. }
+      assert (E3 : 2 ^ (h - (e - 1) + 1) = 2 * 2 ^ (h - e + 1)).
+      { replace (h - (e - 1) + 1) with (h - e + 1 + 1) by lia. rewrite (Z.pow_add_r 2 (h - e + 1) 1) by lia. lia. }
+      assert (Hry : 2 ^ (h - (e - 1)) <= y < 2 ^ (h - (e - 1) + 1)) by lia.
+      assert (Hpos : forall i, In i idxs -> 0 <= i) by (intros i Hi; pose proof (Hidx i Hi); lia).
+      destruct (computable_b n idxs y) eqn:Ecb.
+      - apply (computable_b_spec n idxs y n_pos Hpos) in Ecb.
+        destruct (computable_onp y Ecb) as [e'' [He'' Ho'']].
+        pose proof (onp_range e'' y ltac:(lia) Ho'') as Hr''.
+        assert (h - e'' = h - (e - 1)) by (apply (pow2_interval_unique _ _ y); lia).
+        replace (e - 1) with e'' by lia. apply IA2; [lia|exact Ho''].
+      - assert (Hmin : minimal n idxs y).
+        { split.
+          - unfold needed. rewrite Ey, spec_sibling_invol. apply (onp_computable (e - 1)); [lia|exact Hc1].
+          - intros Hcy. apply (computable_b_spec n idxs y n_pos Hpos) in Hcy. congruence. }
+        destruct M_spec as [_ Hm]. apply Hm in Hmin.
+        destruct (pos_of y M) as [j|] eqn:Ep; [|apply pos_of_None in Ep; tauto].
+        rewrite (IA1 y j Ep). f_equal. symmetry. apply val_M. exact Ep.
+    Qed.
+
+    Definition parents_ok (e : Z) (parents : list Z) : Prop :=
+      StronglySorted Z.lt parents /\ forall x, In x parents <-> onp e x.
+
+    Lemma layer_step m e nodes parents : 1 <= e <= h ->
+      InvA e nodes -> InvB e nodes -> parents_ok e parents ->
+      exists nodes', fill_layer D H m nodes parents = Ok nodes' /\ InvA (e + 1) nodes' /\ InvB (e + 1) nodes'.
+    Proof.
+      intros He HA HB [PS PM].
+      destruct (fill_layer_gen m parents nodes) as [nodes' [N1 N2]].
+      - apply sorted_lt_NoDup. exact PS.
+      - intros p Hp. apply PM in Hp.
+        pose proof (onp_range e p ltac:(lia) Hp) as Hr.
+        assert (Hle : 2 ^ (h - e + 1) <= 2 ^ 31) by (apply Z.pow_le_mono_r; lia).
+        change (2 ^ 31) with 2147483648 in Hle.
+        split; [unfold USZ; lia|]. split.
+        { exists (V (Z.to_nat (e - 1)) (2 * p)), (V (Z.to_nat (e - 1)) (2 * p + 1)).
+          split; apply (child_known e p); try assumption; lia. }
+        split.
+        { destruct (mget nodes p) eqn:Eg; [|reflexivity]. exfalso.
+          destruct (HB p) as [Hin|[e' [He' Ho']]]; [congruence| |].
+          - apply (M_not_onp e p); [lia|exact Hp|exact Hin].
+          - assert (e = e') by (apply (onp_level_unique e e' p); try assumption; lia). lia. }
+        assert (E1 : 2 ^ (h - e + 1) = 2 * 2 ^ (h - e)) by (rewrite Z.pow_add_r by lia; lia).
+        split; intros Hin; apply PM in Hin; apply onp_range in Hin; lia.
+      - exists nodes'. split; [exact N1|]. destruct HA as [IA1 IA2]. split; [split|].
+        + intros x j Hpx. rewrite N2.
+          destruct (zmem x parents) eqn:Ez; [|apply IA1; exact Hpx]. exfalso.
+          apply zmem_In in Ez. apply PM in Ez. apply (M_not_onp e x); [lia|exact Ez|].
+          destruct (pos_of_Some x M j Hpx) as [P1 P2]. rewrite <- P2. apply nth_In. exact P1.
+        + intros e' x He' Ho'. rewrite N2.
+          destruct (zmem x parents) eqn:Ez.
+          * apply zmem_In in Ez. apply PM in Ez.
+            assert (e' = e) by (apply (onp_level_unique e' e x); try assumption; lia). subst e'.
+            unfold hc.
+            rewrite (child_known e x (2 * x) nodes) by (try assumption; try split; try assumption; lia).
+            rewrite (child_known e x (2 * x + 1) nodes) by (try assumption; try split; try assumption; lia).
+            f_equal. symmetry. apply val_inner; [lia|exact Ez].
+          * destruct (Z.eq_dec e' e) as [->|Hne].
+            -- exfalso. apply PM in Ho'. apply zmem_In in Ho'. congruence.
+            -- apply IA2; [lia|exact Ho'].
+        + intros x Hx. rewrite N2 in Hx.
+          destruct (zmem x parents) eqn:Ez.
+          * right. exists e. split; [lia|]. apply PM. apply zmem_In. exact Ez.
+          * destruct (HB x Hx) as [Hin|[e' [He' Ho']]]; [left; exact Hin|right; exists e'; split; [lia|exact Ho']].
+    Qed.
+
+    Lemma map_half_sorted l : StronglySorted Z.lt l -> StronglySorted Z.le (map (fun i => i / 2) l).
+    Proof.
+      induction 1 as [|a r Hs IH Hf]; cbn [map]; constructor; [exact IH|].
+      rewrite Forall_forall in *. intros y Hy. apply in_map_iff in Hy. destruct Hy as [z [<- Hz]].
+      specialize (Hf z Hz). lia.
+    Qed.
+
+    Lemma parents_up e parents : 0 <= e -> parents_ok e parents ->
+      parents_ok (e + 1) (dedup_adj (map (fun i => i / 2) parents)).
+    Proof.
+      intros He [PS PM]. split.
+      - apply dedup_adj_sorted. apply map_half_sorted. exact PS.
+      - intros x. rewrite dedup_adj_In, in_map_iff. split.
+        + intros [p [<- Hp]]. apply onp_step; [exact He|]. apply PM. exact Hp.
+        + intros [i [Hi ->]]. exists ((n + i) / 2 ^ e). split.
+          * apply div_pow2_succ'. exact He.
+          * apply PM. exists i. tauto.
+    Qed.
+
+    Lemma first_parents_ok m : 1 <= h ->
+      exists ps, first_layer_parents m h idxs = Ok ps /\ parents_ok 1 ps.
+    Proof.
+      intros Hh1. unfold first_layer_parents, pmt_num_leafs, MAX_TREE_HEIGHT.
+      destruct (31 <? h) eqn:E; [apply Z.ltb_lt in E; lia|]. cbn [obind]. fold n.
+      rewrite (mapO_ok _ (fun i => (i + n) / 2)).
+      2:{ intros i Hi. pose proof (Hidx i Hi). pose proof n_small. change (2 ^ 31) with 2147483648 in *.
+          rewrite uadd_ok by (unfold USZ; lia). reflexivity. }
+      cbn [obind]. eexists. split; [reflexivity|]. split.
+      - apply dedup_adj_sorted. apply isort_asc_sorted.
+      - intros x. rewrite dedup_adj_In, isort_asc_In, in_map_iff. unfold onp. change (2 ^ 1) with 2.
+        split; [intros [i [Hi1 Hi2]]|intros [i [Hi1 Hi2]]]; exists i; rewrite (Z.add_comm n i) in *; split; auto.
+    Qed.
+
+    Lemma fill_loop_ok m : forall (r : nat) e nodes parents,
+      Z.of_nat r = h - e + 1 -> 1 <= e ->
+      InvA e nodes -> InvB e nodes -> ((1 <= r)%nat -> parents_ok e parents) ->
+      exists nodes', fill_loop D H m r nodes parents = Ok nodes' /\ InvA (h + 1) nodes' /\ InvB (h + 1) nodes'.
+    Proof.
+      induction r; intros e nodes parents Hr He HA HB HP.
+      - exists nodes. split; [reflexivity|]. replace (h + 1) with e by lia. tauto.
+      - cbn [fill_loop].
+        destruct (layer_step m e nodes parents ltac:(lia) HA HB (HP ltac:(lia))) as [nodes1 [N1 [N2 N3]]].
+        rewrite N1. cbn [obind]. apply (IHr (e + 1)); try assumption; try lia.
+        intros _. apply parents_up; [lia|]. apply HP. lia.
+    Qed.
+
+    Hypothesis Hcons : consistent D L.
+
+    Lemma M_NoDup : NoDup M.
+    Proof. apply sorted_gt_NoDup. apply M_spec. Qed.
+
+    Lemma nodes0_get x :
+      mget (rev (combine M A)) x = match pos_of x M with Some j => Some (nth j A dflt) | None => None end.
+    Proof. apply mget_combine; [apply M_NoDup|exact HlenA]. Qed.
+
+    (* the whole of try_from under the structural conditions *)
+    Lemma try_from_ok m :
+      exists nodes, pmt_try_from D H Deqb m (MkProof h L A) = Ok (MkPmt D h idxs nodes) /\
+                    InvA (h + 1) nodes /\ InvB (h + 1) nodes.
+    Proof.
+      pose proof n_pos as Hn1. pose proof n_small as Hn2. change (2 ^ 31) with 2147483648 in Hn2.
+      unfold pmt_try_from. cbn [ip_height ip_leafs ip_auth]. fold idxs.
+      unfold pmt_num_leafs, MAX_TREE_HEIGHT.
+      destruct (31 <? h) eqn:E; [apply Z.ltb_lt in E; lia|]. cbn [obind]. fold n.
+      assert (Ex : existsb (fun i => n <=? i) idxs = false).
+      { apply not_true_iff_false. intros Hex. apply existsb_exists in Hex. destruct Hex as [i [Hi Hni]].
+        apply Z.leb_le in Hni. pose proof (Hidx i Hi). lia. }
+      rewrite Ex.
+      rewrite auth_indices_eq by (try assumption; unfold USZ; lia). cbn [obind]. fold M.
+      assert (El : (zlen A =? zlen M) = true) by (apply Z.eqb_eq; unfold zlen; lia).
+      rewrite El. cbn [negb].
+      destruct (add_leafs_ok m n ltac:(lia) L (rev (combine M A))) as [nodes1 [N1 N2]].
+      { intros i Hi. fold idxs in Hi. pose proof (Hidx i Hi). unfold USZ. lia. }
+      { exact Hcons. }
+      { intros i d d' Hin Hg. exfalso. rewrite nodes0_get in Hg.
+        destruct (pos_of (i + n) M) as [j|] eqn:Ep; [|discriminate].
+        apply (M_not_onp 0 (i + n)); [lia| |].
+        - exists i. split; [apply in_map_iff; exists (i, d); tauto|]. rewrite Z.div_1_r. lia.
+        - destruct (pos_of_Some _ _ _ Ep) as [P1 P2]. rewrite <- P2. apply nth_In. exact P1. }
+      rewrite N1. cbn [obind].
+      assert (HA1 : InvA 1 nodes1).
+      { split.
+        - intros x j Hp. rewrite N2.
+          assert (Hin : In x M).
+          { destruct (pos_of_Some _ _ _ Hp) as [P1 P2]. rewrite <- P2. apply nth_In. exact P1. }
+          rewrite M_not_claimed by exact Hin. rewrite nodes0_get, Hp. reflexivity.
+        - intros e' x He' [i [Hi ->]]. assert (e' = 0) by lia. subst e'. rewrite Z.div_1_r.
+          rewrite N2. replace (n + i - n) with i by lia.
+          destruct (find_leaf L i) as [d|] eqn:Ef.
+          + cbn [Z.to_nat val_in]. replace (n + i - n) with i by lia. rewrite Ef. reflexivity.
+          + apply find_leaf_None in Ef. tauto. }
+      assert (HB1 : InvB 1 nodes1).
+      { intros x Hx. rewrite N2 in Hx.
+        destruct (find_leaf L (x - n)) as [d|] eqn:Ef.
+        - right. exists 0. split; [lia|]. exists (x - n). split.
+          + apply find_leaf_In in Ef. apply in_map_iff. exists (x - n, d). tauto.
+          + rewrite Z.div_1_r. lia.
+        - left. rewrite nodes0_get in Hx. destruct (pos_of x M) as [j|] eqn:Ep; [|congruence].
+          destruct (pos_of_Some _ _ _ Ep) as [P1 P2]. rewrite <- P2. apply nth_In. exact P1. }
+      unfold pmt_fill.
+      destruct (Z.eq_dec h 0) as [Hh0|Hh0].
+      - (* height 0: no round at all *)
+        assert (Hfp : exists ps, first_layer_parents m h idxs = Ok ps).
+        { unfold first_layer_parents, pmt_num_leafs, MAX_TREE_HEIGHT. rewrite E. cbn [obind]. fold n.
+          rewrite (mapO_ok _ (fun i => (i + n) / 2)).
+          - cbn [obind]. eexists. reflexivity.
+          - intros i Hi. pose proof (Hidx i Hi). rewrite uadd_ok by (unfold USZ; lia). reflexivity. }
+        destruct Hfp as [ps Hps]. rewrite Hps. cbn [obind].
+        replace (Z.to_nat h) with O by lia. cbn [fill_loop obind].
+        exists nodes1. split; [reflexivity|]. replace (h + 1) with 1 by lia. split; assumption.
+      - destruct (first_parents_ok m ltac:(lia)) as [ps [P1 P2]]. rewrite P1. cbn [obind].
+        destruct (fill_loop_ok m (Z.to_nat h) 1 nodes1 ps) as [nodes2 [F1 [F2 F3]]]; try assumption; try lia.
+        { intros _. exact P2. }
+        rewrite F1. cbn [obind]. exists nodes2. tauto.
+    Qed.
+
+    (* the root of the filled partial tree *)
+    Lemma root_of_filled nodes : L <> [] -> InvA (h + 1) nodes ->
+      mget nodes 1 = Some (V (Z.to_nat h) 1).
+    Proof.
+      intros HL [_ IA2]. destruct (nonempty_fst L HL) as [i Hi]. fold idxs in Hi.
+      apply IA2; [lia|]. exists i. split; [exact Hi|].
+      pose proof (Hidx i Hi). apply Z.div_unique with (r := i); [lia|]. unfold n. lia.
+    Qed.
+
+    Lemma InvA_weaken e1 e2 nodes : e1 <= e2 -> InvA e2 nodes -> InvA e1 nodes.
+    Proof. intros Hle [I1 I2]. split; [exact I1|]. intros e' x He' Ho. apply I2; [lia|exact Ho]. Qed.
+
+    Lemma child_cases e x y : 1 <= e <= h -> onp e x -> y / 2 = x ->
+      onp (e - 1) y \/ exists j, pos_of y M = Some j.
+    Proof.
+      intros He Ho Hy.
+      destruct (onp_child e x ltac:(lia) Ho) as [c [Hc1 Hc2]].
+      destruct (Z.eq_dec y c) as [->|Hne]; [left; exact Hc1|].
+      assert (Ey : y = spec_sibling c) by (apply sibling_of_half; [lia|exact Hne]).
+      pose proof (onp_range (e - 1) c ltac:(lia) Hc1) as Hrc.
+      pose proof (onp_range e x ltac:(lia) Ho) as Hrx.
+      assert (E2 : 2 ^ (h - (e - 1)) = 2 * 2 ^ (h - e)).
+      { replace (h - (e - 1)) with (h - e + 1) by lia. rewrite Z.pow_add_r by lia. lia. }
+      assert (E3 : 2 ^ (h - (e - 1) + 1) = 2 * 2 ^ (h - e + 1)).
+      { replace (h - (e - 1) + 1) with (h - e + 1 + 1) by lia. rewrite (Z.pow_add_r 2 (h - e + 1) 1) by lia. lia. }
+      assert (Hry : 2 ^ (h - (e - 1)) <= y < 2 ^ (h - (e - 1) + 1)) by lia.
+      assert (Hpos : forall i, In i idxs -> 0 <= i) by (intros i Hi; pose proof (Hidx i Hi); lia).
+      destruct (computable_b n idxs y) eqn:Ecb.
+      - left. apply (computable_b_spec n idxs y n_pos Hpos) in Ecb.
+        destruct (computable_onp y Ecb) as [e'' [He'' Ho'']].
+        pose proof (onp_range e'' y ltac:(lia) Ho'') as Hr''.
+        assert (h - e'' = h - (e - 1)) by (apply (pow2_interval_unique _ _ y); lia).
+        replace (e - 1) with e'' by lia. exact Ho''.
+      - right. assert (Hmin : minimal n idxs y).
+        { split.
+          - unfold needed. rewrite Ey, spec_sibling_invol. apply (onp_computable (e - 1)); [lia|exact Hc1].
+          - intros Hcy. apply (computable_b_spec n idxs y n_pos Hpos) in Hcy. congruence. }
+        destruct M_spec as [_ Hm]. apply Hm in Hmin.
+        destruct (pos_of y M) as [j|] eqn:Ep; [exists j; reflexivity|apply pos_of_None in Ep; tauto].
+    Qed.
+
+    Lemma auth_path_ok nodes : InvA (h + 1) nodes -> forall (lvl fuel : nat) e x,
+      (lvl <= fuel)%nat -> Z.of_nat lvl = h - e -> 0 <= e -> onp e x ->
+      mapO (fun k => match mget nodes (sibling k) with Some d => Ok d | None => Err end) (path_up fuel x) =
+      Ok (sibling_path_in D H dflt M n L A (Z.to_nat h) x lvl).
+    Proof.
+      intros HA. induction lvl; intros fuel e x Hf Hl He Ho.
+      - assert (e = h) by lia. subst e. pose proof (onp_range h x ltac:(lia) Ho) as Hr.
+        replace (h - h) with 0 in Hr by lia. cbn in Hr. assert (x = 1) by lia. subst x.
+        destruct fuel; reflexivity.
+      - destruct fuel as [|fuel']; [lia|].
+        pose proof (onp_range e x ltac:(lia) Ho) as Hr.
+        assert (2 ^ 1 <= 2 ^ (h - e)) by (apply Z.pow_le_mono_r; lia). change (2 ^ 1) with 2 in *.
+        cbn [path_up]. destruct (1 <? x) eqn:E1; [|apply Z.ltb_ge in E1; lia].
+        cbn [mapO sibling_path_in]. rewrite sibling_spec.
+        assert (Ho' : onp (e + 1) (x / 2)) by (apply onp_step; [lia|exact Ho]).
+        rewrite (child_known (e + 1) (x / 2) (spec_sibling x) nodes); try lia; try assumption.
+        2:{ apply (InvA_weaken (e + 1) (h + 1)); [lia|exact HA]. }
+        2:{ apply spec_sibling_half. }
+        cbn [obind]. rewrite (IHlvl fuel' (e + 1) (x / 2)); try lia; try assumption.
+        cbn [obind]. f_equal. f_equal. f_equal. lia.
+    Qed.
+  End Fill.
+
+  (* ---------------------------------------------------------------- verification, exactly *)
+  Lemma minimal_list_nil n : 1 <= n -> minimal_list n [] = [].
+  Proof.
+    intros Hn. destruct (minimal_list_spec n [] Hn) as [_ Hm]; [intros i []|].
+    destruct (minimal_list n []) as [|x r]; [reflexivity|]. exfalso.
+    destruct (proj1 (Hm x) (or_introl eq_refl)) as [[_ [i [[] _]]] _].
+  Qed.
+
+  Lemma try_from_unfold m h (L : list (Z * D)) (A : list D) :
+    0 <= h <= 31 -> (forall i, In i (map fst L) -> 0 <= i < 2 ^ h) ->
+    length A = length (minimal_list (2 ^ h) (map fst L)) ->
+    pmt_try_from D H Deqb m (MkProof h L A) =
+      (do nodes1 <- add_leafs m (2 ^ h) L (rev (combine (minimal_list (2 ^ h) (map fst L)) A)) ;
+       do nodes2 <- pmt_fill D H m h (map fst L) nodes1 ;
+       Ok (MkPmt D h (map fst L) nodes2)).
+  Proof.
+    intros Hh Hidx Hlen.
+    assert (Hn1 : 1 <= 2 ^ h) by (pose proof (Z.pow_pos_nonneg 2 h); lia).
+    assert (Hn2 : 2 ^ h <= 2 ^ 31) by (apply Z.pow_le_mono_r; lia). change (2 ^ 31) with 2147483648 in Hn2.
+    unfold pmt_try_from. cbn [ip_height ip_leafs ip_auth].
+    unfold pmt_num_leafs, MAX_TREE_HEIGHT.
+    destruct (31 <? h) eqn:E; [apply Z.ltb_lt in E; lia|]. cbn [obind].
+    assert (Ex : existsb (fun i => 2 ^ h <=? i) (map fst L) = false).
+    { apply not_true_iff_false. intros Hex. apply existsb_exists in Hex. destruct Hex as [i [Hi Hni]].
+      apply Z.leb_le in Hni. pose proof (Hidx i Hi). lia. }
+    rewrite Ex. rewrite auth_indices_eq by (try assumption; unfold USZ; lia). cbn [obind].
+    assert (El : (zlen A =? zlen (minimal_list (2 ^ h) (map fst L))) = true) by (apply Z.eqb_eq; unfold zlen; lia).
+    rewrite El. reflexivity.
+  Qed.
+
+  Lemma try_from_dec m (p : iproof D) : wf_proof D p ->
+    (structure_ok D p /\
+     exists nodes, pmt_try_from D H Deqb m p = Ok (MkPmt D (ip_height p) (map fst (ip_leafs p)) nodes) /\
+                   InvA (ip_height p) (ip_leafs p) (ip_auth p) (ip_height p + 1) nodes) \/
+    (~ structure_ok D p /\ pmt_try_from D H Deqb m p = Err).
+  Proof.
+    destruct p as [h L A]. unfold wf_proof, structure_ok. cbn [ip_height ip_leafs ip_auth].
+    intros [Hh0 Hpos].
+    destruct (Z_le_dec h 31) as [Hh31|Hh31].
+    2:{ right. split; [intros [S1 _]; lia|]. unfold pmt_try_from, pmt_num_leafs, MAX_TREE_HEIGHT.
+        cbn [ip_height]. destruct (31 <? h) eqn:E; [reflexivity|apply Z.ltb_ge in E; lia]. }
+    assert (Hn1 : 1 <= 2 ^ h) by (pose proof (Z.pow_pos_nonneg 2 h); lia).
+    assert (Hn2 : 2 ^ h <= 2 ^ 31) by (apply Z.pow_le_mono_r; lia). change (2 ^ 31) with 2147483648 in Hn2.
+    destruct (existsb (fun i => 2 ^ h <=? i) (map fst L)) eqn:Ex.
+    { right. split.
+      - intros [_ [S2 _]]. apply existsb_exists in Ex. destruct Ex as [i [Hi Hni]].
+        apply Z.leb_le in Hni. specialize (S2 i Hi). lia.
+      - unfold pmt_try_from, pmt_num_leafs, MAX_TREE_HEIGHT. cbn [ip_height ip_leafs].
+        destruct (31 <? h) eqn:E; [reflexivity|]. cbn [obind]. rewrite Ex. reflexivity. }
+    assert (Hidx : forall i, In i (map fst L) -> 0 <= i < 2 ^ h).
+    { intros i Hi. split; [apply Hpos; exact Hi|].
+      destruct (Z_lt_dec i (2 ^ h)) as [Hlt|Hge]; [exact Hlt|]. exfalso.
+      apply not_true_iff_false in Ex. apply Ex. apply existsb_exists. exists i. split; [exact Hi|]. apply Z.leb_le. lia. }
+    destruct (Nat.eq_dec (length A) (length (minimal_list (2 ^ h) (map fst L)))) as [Hlen|Hlen].
+    2:{ right. split; [intros [_ [_ [S3 _]]]; contradiction|].
+        unfold pmt_try_from, pmt_num_leafs, MAX_TREE_HEIGHT. cbn [ip_height ip_leafs ip_auth].
+        destruct (31 <? h) eqn:E; [reflexivity|]. cbn [obind]. rewrite Ex.
+        rewrite auth_indices_eq by (try assumption; unfold USZ; lia). cbn [obind].
+        destruct (zlen A =? zlen (minimal_list (2 ^ h) (map fst L))) eqn:El; [|reflexivity].
+        apply Z.eqb_eq in El. unfold zlen in El. lia. }
+    pose proof (try_from_unfold m h L A ltac:(lia) Hidx Hlen) as Hunf.
+    assert (Hr : forall i, In i (map fst L) -> 0 <= i /\ i + 2 ^ h < USZ).
+    { intros i Hi. pose proof (Hidx i Hi). unfold USZ. lia. }
+    destruct (add_leafs_total m (2 ^ h) ltac:(lia) L (rev (combine (minimal_list (2 ^ h) (map fst L)) A)) Hr)
+      as [[nodes1 Hok]|Herr].
+    - pose proof (add_leafs_consistent m (2 ^ h) L _ nodes1 ltac:(lia) Hr Hok) as Hcons.
+      left. split; [split; [exact Hh31|split; [intros i Hi; apply Hidx; exact Hi|split; assumption]]|].
+      destruct (try_from_ok h L A ltac:(lia) Hidx Hlen Hcons m) as [nodes [T1 [T2 _]]].
+      exists nodes. split; assumption.
+    - right. split.
+      + intros [_ [_ [_ S4]]].
+        destruct (try_from_ok h L A ltac:(lia) Hidx Hlen S4 m) as [nodes [T1 _]].
+        rewrite Hunf, Herr in T1. discriminate.
+      + rewrite Hunf, Herr. reflexivity.
+  Qed.
+
+  Lemma nontrivial_leafs (p : iproof D) :
+    0 <= ip_height p -> structure_ok D p -> is_trivial D p = false -> ip_leafs p <> [].
+  Proof.
+    destruct p as [h L A]. unfold structure_ok, is_trivial. cbn [ip_height ip_leafs ip_auth].
+    intros Hh0 [_ [_ [Hlen _]]] Ht HL. subst L. cbn [map] in Hlen.
+    rewrite minimal_list_nil in Hlen by (pose proof (Z.pow_pos_nonneg 2 h); lia).
+    destruct A; [discriminate|discriminate].
+  Qed.
+
+  Theorem verify_iff_lemma m (p : iproof D) (root : D) : wf_proof D p ->
+    (ip_verify D H Deqb m p root = Ok true <-> verify_spec D H dflt p root).
+  Proof.
+    intros Hwf. unfold ip_verify, verify_spec.
+    destruct (is_trivial D p) eqn:Et; [split; [left; reflexivity|reflexivity]|].
+    destruct (try_from_dec m p Hwf) as [[Hs [nodes [T1 T2]]]|[Hns T1]].
+    - rewrite T1. unfold pmt_root. cbn [pt_nodes].
+      pose proof (nontrivial_leafs p (proj1 Hwf) Hs Et) as HL.
+      destruct Hs as [S1 [S2 [S3 S4]]].
+      rewrite (root_of_filled (ip_height p) (ip_leafs p) (ip_auth p)) with (nodes := nodes); try assumption.
+      + unfold val. split.
+        * intros Hv. inversion Hv as [Hv']. apply Deqb_spec in Hv'. right. split; [repeat split; assumption|exact Hv'].
+        * intros [Ht|[_ Hv]]; [discriminate|]. f_equal. apply Deqb_spec. exact Hv.
+      + destruct Hwf. lia.
+      + intros i Hi. split; [apply Hwf; exact Hi|apply S2; exact Hi].
+    - rewrite T1. split; [discriminate|]. intros [Ht|[Hs _]]; [discriminate|contradiction].
+  Qed.
+
+  Theorem verify_total_lemma m (p : iproof D) (root : D) : wf_proof D p ->
+    exists b, ip_verify D H Deqb m p root = Ok b.
+  Proof.
+    intros Hwf. unfold ip_verify.
+    destruct (is_trivial D p); [exists true; reflexivity|].
+    destruct (try_from_dec m p Hwf) as [[Hs [nodes [T1 T2]]]|[Hns T1]]; rewrite T1.
+    - unfold pmt_root. destruct (mget (pt_nodes D _) 1); eexists; reflexivity.
+    - exists false. reflexivity.
+  Qed.
+
+  Theorem paths_spec_lemma m (p : iproof D) : wf_proof D p ->
+    (structure_ok D p /\
+     ip_into_authentication_paths D H Deqb m p =
+       Ok (map (fun i => sibling_path D H dflt (2 ^ ip_height p) (ip_leafs p) (ip_auth p) (Z.to_nat (ip_height p))
+                                      (2 ^ ip_height p + i) (Z.to_nat (ip_height p)))
+               (map fst (ip_leafs p)))) \/
+    (~ structure_ok D p /\ ip_into_authentication_paths D H Deqb m p = Err).
+  Proof.
+    intros Hwf. unfold ip_into_authentication_paths.
+    destruct (try_from_dec m p Hwf) as [[Hs [nodes [T1 T2]]]|[Hns T1]]; rewrite T1; cbn [obind].
+    2:{ right. split; [exact Hns|reflexivity]. }
+    left. split; [exact Hs|]. cbn [pt_leaf_indices].
+    destruct Hs as [S1 [S2 [S3 S4]]]. destruct Hwf as [W1 W2].
+    set (h := ip_height p) in *. set (L := ip_leafs p) in *. set (A := ip_auth p) in *.
+    assert (Hidx : forall i, In i (map fst L) -> 0 <= i < 2 ^ h).
+    { intros i Hi. split; [apply W2; exact Hi|apply S2; exact Hi]. }
+    assert (Hn2 : 2 ^ h <= 2 ^ 31) by (apply Z.pow_le_mono_r; lia). change (2 ^ 31) with 2147483648 in Hn2.
+    apply mapO_ok. intros i Hi. pose proof (Hidx i Hi) as Hii.
+    unfold auth_path_for_index. cbn [pt_height pt_nodes].
+    unfold pmt_num_leafs, MAX_TREE_HEIGHT. destruct (31 <? h) eqn:E; [apply Z.ltb_lt in E; lia|]. cbn [obind].
+    rewrite uadd_ok by (unfold USZ; lia). cbn [obind].
+    rewrite (auth_path_ok h L A ltac:(lia) Hidx S3 nodes T2 (Z.to_nat h) 64%nat 0 (i + 2 ^ h)); try lia.
+    - unfold sibling_path. rewrite (Z.add_comm i). reflexivity.
+    - exists i. split; [exact Hi|]. rewrite Z.div_1_r. lia.
+  Qed.
+
+  (* ---------------------------------------------------------------- honest proofs (C10) *)
+  Lemma find_leaf_map (f : Z -> D) idxs i : In i idxs ->
+    find_leaf (map (fun j => (j, f j)) idxs) i = Some (f i).
+  Proof.
+    induction idxs as [|j r IH]; [intros []|]. intros Hin. cbn [map find_leaf].
+    destruct (i =? j) eqn:E; [apply Z.eqb_eq in E; subst; reflexivity|].
+    apply Z.eqb_neq in E. apply IH. destruct Hin; [congruence|assumption].
+  Qed.
+
+  Lemma map_fst_pairs (f : Z -> D) idxs : map fst (map (fun j => (j, f j)) idxs) = idxs.
+  Proof. induction idxs as [|j r IH]; [reflexivity|]. cbn [map fst]. now rewrite IH. Qed.
+
+  Lemma nonempty_in (l : list Z) : l <> [] -> exists i, In i l.
+  Proof. destruct l as [|i r]; [congruence|]. intros _. exists i. left. reflexivity. Qed.
+
+  Section Complete.
+    Variable leafs : list D.
+    Variable h : Z.
+    Variable idxs : list Z.
+    Hypothesis Hh : 0 <= h <= 31.
+    Hypothesis Hlen : zlen leafs = 2 ^ h.
+    Hypothesis Hidx0 : forall i, In i idxs -> 0 <= i < 2 ^ h.
+    Notation znth := (znth D dflt).
+    Let T := spec_tree D H dflt leafs.
+    Let L := map (fun i => (i, znth leafs i)) idxs.
+    Let A := map (znth T) (minimal_list (2 ^ h) idxs).
+    Notation M := (minimal_list (2 ^ h) (map fst L)).
+    Notation V := (val_in D H dflt M (2 ^ h) L A).
+
+    Lemma fstL : map fst L = idxs.
+    Proof. apply map_fst_pairs. Qed.
+    Lemma Hidx : forall i, In i (map fst L) -> 0 <= i < 2 ^ h.
+    Proof. rewrite fstL. exact Hidx0. Qed.
+    Lemma HlenA : length A = length M.
+    Proof. rewrite fstL. unfold A. apply map_length. Qed.
+    Lemma Hpow : is_pow2 (zlen leafs) = true.
+    Proof. apply is_pow2_spec. exists h. split; [lia|exact Hlen]. Qed.
+    Lemma T_ok : tree_ok D H dflt leafs T.
+    Proof. apply spec_tree_ok. exact Hpow. Qed.
+
+    Lemma hv_M k y j : pos_of y M = Some j -> V k y = znth T y.
+    Proof.
+      intros Hp. rewrite (val_M h L A Hh Hidx HlenA k y j Hp).
+      destruct (pos_of_Some y M j Hp) as [P1 P2]. rewrite fstL in P1, P2.
+      unfold A. rewrite (nth_indep _ dflt (znth T 0)) by (rewrite map_length; exact P1).
+      rewrite map_nth, P2. reflexivity.
+    Qed.
+
+    Lemma honest_val : forall (e : nat) x, Z.of_nat e <= h -> onp h L (Z.of_nat e) x -> V e x = znth T x.
+    Proof.
+      destruct T_ok as [TA [TB [TC TE]]]. cbv zeta in TA, TC, TE. rewrite Hlen in TA, TC, TE.
+      induction e; intros x He Ho.
+      - destruct Ho as [i [Hi ->]]. cbn [Z.of_nat] in *. rewrite Z.div_1_r. rewrite fstL in Hi.
+        cbn [val_in]. replace (2 ^ h + i - 2 ^ h) with i by lia.
+        unfold L at 1. rewrite find_leaf_map by exact Hi. symmetry. apply TC. apply Hidx0. exact Hi.
+      - pose proof (onp_range h L A Hh Hidx HlenA (Z.of_nat (S e)) x ltac:(lia) Ho) as Hr.
+        assert (Hxn : 1 <= x < 2 ^ h).
+        { pose proof (Z.pow_pos_nonneg 2 (h - Z.of_nat (S e))).
+          assert (2 ^ (h - Z.of_nat (S e) + 1) <= 2 ^ h) by (apply Z.pow_le_mono_r; lia). lia. }
+        rewrite <- (Nat2Z.id (S e)). rewrite (val_inner h L A Hh Hidx HlenA (Z.of_nat (S e)) x) by (try assumption; lia).
+        replace (Z.to_nat (Z.of_nat (S e) - 1)) with e by lia.
+        rewrite TE by lia.
+        assert (Hc : forall y, y / 2 = x -> V e y = znth T y).
+        { intros y Hy.
+          destruct (child_cases h L A Hh Hidx HlenA (Z.of_nat (S e)) x y ltac:(lia) Ho Hy) as [Hoy|[j Hj]].
+          - apply IHe; [lia|]. replace (Z.of_nat e) with (Z.of_nat (S e) - 1) by lia. exact Hoy.
+          - apply (hv_M e y j Hj). }
+        rewrite !Hc by lia. reflexivity.
+    Qed.
+
+    Lemma honest_structure : structure_ok D (MkProof h L A).
+    Proof.
+      unfold structure_ok. cbn [ip_height ip_leafs ip_auth].
+      split; [lia|]. split; [intros i Hi; apply Hidx; exact Hi|]. split; [exact HlenA|].
+      intros i d d' H1 H2. unfold L in H1, H2. apply in_map_iff in H1, H2.
+      destruct H1 as [a [E1 _]]. destruct H2 as [b [E2 _]]. inversion E1. inversion E2. congruence.
+    Qed.
+
+    Lemma honest_wf : wf_proof D (MkProof h L A).
+    Proof. split; cbn [ip_height ip_leafs]; [lia|]. intros i Hi. apply Hidx in Hi. lia. Qed.
+
+    (* C10 complete *)
+    Theorem complete_lemma m : idxs <> [] ->
+      ip_verify D H Deqb m (MkProof h L A) (znth T 1) = Ok true.
+    Proof.
+      intros Hne. apply verify_iff_lemma; [exact honest_wf|]. right. split; [exact honest_structure|].
+      cbn [ip_height ip_leafs ip_auth]. unfold val.
+      destruct (nonempty_in idxs Hne) as [i Hi].
+      apply honest_val; [lia|]. rewrite Z2Nat.id by lia.
+      exists i. split; [rewrite fstL; exact Hi|].
+      pose proof (Hidx0 i Hi).
+      apply Z.div_unique with (r := i); lia.
+    Qed.
+
+    Lemma log2_n : Z.log2 (zlen leafs) = h.
+    Proof. rewrite Hlen. apply Z.log2_pow2. lia. Qed.
+
+    Lemma n_bounds : 1 <= 2 ^ h <= 2147483648.
+    Proof.
+      pose proof (Z.pow_pos_nonneg 2 h). assert (2 ^ h <= 2 ^ 31) by (apply Z.pow_le_mono_r; lia).
+      change (2 ^ 31) with 2147483648 in *. lia.
+    Qed.
+
+    Lemma honest_auth m :
+      mt_authentication_structure D m T idxs = Ok (map (znth T) (minimal_list (2 ^ h) idxs)).
+    Proof.
+      pose proof n_bounds as Hn.
+      unfold mt_authentication_structure. unfold T. rewrite honest_num_leafs by exact Hpow. cbn [obind].
+      rewrite Hlen. rewrite auth_indices_eq by (try assumption; unfold USZ; lia). cbn [obind].
+      apply mapO_ok. intros x Hx.
+      destruct (minimal_list_spec (2 ^ h) idxs ltac:(lia) Hidx0) as [_ Hm]. apply Hm in Hx.
+      pose proof (minimal_range (2 ^ h) idxs x ltac:(lia) Hidx0 Hx) as Hr.
+      rewrite (zget_znth D dflt); [reflexivity|]. rewrite (honest_len D H dflt leafs Hpow). rewrite Hlen. lia.
+    Qed.
+
+    (* the prover produces exactly the proof (h, claimed leafs, documented minimal structure) *)
+    Lemma honest_proof_eq m : mt_inclusion_proof D true m T idxs = Ok (MkProof h L A).
+    Proof.
+      pose proof n_bounds as Hn.
+      unfold mt_inclusion_proof. unfold T at 1. rewrite honest_height by exact Hpow. cbn [obind].
+      rewrite log2_n. unfold T at 1.
+      rewrite honest_indexed_leafs_fixed; try exact Hpow.
+      2:{ rewrite Hlen. change (2 ^ 63) with 9223372036854775808. lia. }
+      2:{ intros i Hi. apply Hidx0 in Hi. lia. }
+      assert (Ef : forallb (fun i => i <? zlen leafs) idxs = true).
+      { apply forallb_forall. intros i Hi. apply Z.ltb_lt. rewrite Hlen. apply Hidx0. exact Hi. }
+      rewrite Ef. cbn [obind]. rewrite honest_auth. reflexivity.
+    Qed.
+
+    Lemma sibling_path_tree : forall (lvl : nat) e x, Z.of_nat lvl = h - e -> 0 <= e -> onp h L e x ->
+      sibling_path_in D H dflt M (2 ^ h) L A (Z.to_nat h) x lvl = tree_path D dflt T x lvl.
+    Proof.
+      induction lvl; intros e x Hl He Ho; [reflexivity|].
+      cbn [sibling_path_in tree_path].
+      assert (Ho' : onp h L (e + 1) (x / 2)) by (apply (onp_step h L A Hidx HlenA); [lia|exact Ho]).
+      f_equal.
+      - replace (Z.to_nat h - S lvl)%nat with (Z.to_nat (e + 1 - 1)) by lia.
+        destruct (child_cases h L A Hh Hidx HlenA (e + 1) (x / 2) (spec_sibling x) ltac:(lia) Ho' (spec_sibling_half x))
+          as [Hoy|[j Hj]].
+        + rewrite <- (Z2Nat.id (e + 1 - 1)) in Hoy by lia. apply honest_val; [lia|exact Hoy].
+        + apply (hv_M _ _ j Hj).
+      - apply (IHlvl (e + 1)); [lia|lia|exact Ho'].
+    Qed.
+
+    (* C10 paths_are_siblings: the expanded paths are the sibling paths in the tree *)
+    Theorem honest_paths_lemma m :
+      ip_into_authentication_paths D H Deqb m (MkProof h L A) =
+      Ok (map (fun i => tree_path D dflt T (2 ^ h + i) (Z.to_nat h)) idxs).
+    Proof.
+      destruct (paths_spec_lemma m (MkProof h L A) honest_wf) as [[_ Hp]|[Hns _]]; [|exfalso; apply Hns; exact honest_structure].
+      rewrite Hp. cbn [ip_height ip_leafs ip_auth]. rewrite fstL. f_equal.
+      apply map_ext_in. intros i Hi. unfold sibling_path.
+      apply (sibling_path_tree (Z.to_nat h) 0); [lia|lia|].
+      exists i. split; [rewrite fstL; exact Hi|]. rewrite Z.div_1_r. reflexivity.
+    Qed.
+  End Complete.
+
+  (* ---------------------------------------------------------------- soundness (C04) *)
+  Section Sound.
+    Variable leafs : list D.
+    Variable h : Z.
+    Variable L : list (Z * D).
+    Variable A : list D.
+    Hypothesis Hh : 0 <= h <= 31.
+    Hypothesis Hlen : zlen leafs = 2 ^ h.
+    Hypothesis Hidx : forall i, In i (map fst L) -> 0 <= i < 2 ^ h.
+    Hypothesis Hcons : consistent D L.
+    Notation znth := (znth D dflt).
+    Let T := spec_tree D H dflt leafs.
+    Notation M := (minimal_list (2 ^ h) (map fst L)).
+    Notation W := (val_in D H dflt M (2 ^ h) L A).
+
+    Lemma D_eq_dec (a b : D) : {a = b} + {a <> b}.
+    Proof.
+      destruct (Deqb a b) eqn:E; [left; apply Deqb_spec; exact E|right].
+      intros Hab. apply Deqb_spec in Hab. congruence.
+    Qed.
+
+    Lemma sound_down : forall (k : nat) x, Z.of_nat k <= h ->
+      2 ^ (h - Z.of_nat k) <= x < 2 ^ (h - Z.of_nat k + 1) ->
+      W k x = znth T x ->
+      (forall i d, In (i, d) L -> (2 ^ h + i) / 2 ^ Z.of_nat k = x -> d = znth leafs i) \/ collision D H.
+    Proof.
+      assert (Hpow : is_pow2 (zlen leafs) = true) by (apply is_pow2_spec; exists h; split; [lia|exact Hlen]).
+      destruct (spec_tree_ok D H dflt leafs Hpow) as [TA [TB [TC TE]]]. fold T in TA, TB, TC, TE.
+      cbv zeta in TA, TC, TE. rewrite Hlen in TA, TC, TE.
+      pose proof (Z.pow_pos_nonneg 2 h ltac:(lia) ltac:(lia)) as Hn1.
+      induction k; intros x Hk Hr HW.
+      - left. intros i d Hin Hx. cbn [Z.of_nat] in *. rewrite Z.div_1_r in Hx. subst x.
+        assert (Hi : In i (map fst L)) by (apply in_map_iff; exists (i, d); tauto).
+        cbn [val_in] in HW. replace (2 ^ h + i - 2 ^ h) with i in HW by lia.
+        destruct (find_leaf L i) as [d0|] eqn:Ef; [|apply find_leaf_None in Ef; tauto].
+        apply find_leaf_In in Ef. rewrite (Hcons i d d0 Hin Ef). rewrite HW. apply TC. apply Hidx. exact Hi.
+      - assert (E1 : 2 ^ (h - Z.of_nat k) = 2 * 2 ^ (h - Z.of_nat (S k))).
+        { replace (h - Z.of_nat k) with (h - Z.of_nat (S k) + 1) by lia. rewrite Z.pow_add_r by lia. lia. }
+        assert (E2 : 2 ^ (h - Z.of_nat k + 1) = 2 * 2 ^ (h - Z.of_nat (S k) + 1)).
+        { replace (h - Z.of_nat k + 1) with (h - Z.of_nat (S k) + 1 + 1) by lia.
+          rewrite (Z.pow_add_r 2 (h - Z.of_nat (S k) + 1) 1) by lia. lia. }
+        assert (Hxn : 1 <= x < 2 ^ h).
+        { pose proof (Z.pow_pos_nonneg 2 (h - Z.of_nat (S k)) ltac:(lia) ltac:(lia)).
+          assert (2 ^ (h - Z.of_nat (S k) + 1) <= 2 ^ h) by (apply Z.pow_le_mono_r; lia). lia. }
+        cbn [val_in] in HW.
+        assert (Hf : find_leaf L (x - 2 ^ h) = None).
+        { apply find_leaf_None. intros Hc. pose proof (Hidx _ Hc). lia. }
+        rewrite Hf in HW.
+        destruct (pos_of x M) as [j|] eqn:Ep.
+        + left. intros i d Hin Hx. exfalso.
+          assert (Hi : In i (map fst L)) by (apply in_map_iff; exists (i, d); tauto).
+          destruct (minimal_list_spec (2 ^ h) (map fst L) ltac:(lia) Hidx) as [_ Hm].
+          assert (HinM : In x M).
+          { destruct (pos_of_Some x M j Ep) as [P1 P2]. rewrite <- P2. apply nth_In. exact P1. }
+          apply Hm in HinM. pose proof (minimal_range (2 ^ h) (map fst L) x ltac:(lia) Hidx HinM) as Hrx.
+          destruct HinM as [_ Hnc]. apply Hnc. split; [lia|]. exists i. split; [exact Hi|].
+          exists (Z.of_nat (S k)). split; [lia|]. symmetry. exact Hx.
+        + rewrite TE in HW by lia.
+          destruct (D_eq_dec (W k (2 * x)) (znth T (2 * x))) as [Ea|Ea];
+            [destruct (D_eq_dec (W k (2 * x + 1)) (znth T (2 * x + 1))) as [Eb|Eb]|].
+          * destruct (IHk (2 * x) ltac:(lia) ltac:(lia) Ea) as [I1|Hcol]; [|right; exact Hcol].
+            destruct (IHk (2 * x + 1) ltac:(lia) ltac:(lia) Eb) as [I2|Hcol]; [|right; exact Hcol].
+            left. intros i d Hin Hx.
+            assert (Hc : (2 ^ h + i) / 2 ^ Z.of_nat k / 2 = x).
+            { rewrite div_pow2_succ' by lia. rewrite <- Hx. f_equal. f_equal. lia. }
+            assert (Hcases : (2 ^ h + i) / 2 ^ Z.of_nat k = 2 * x \/ (2 ^ h + i) / 2 ^ Z.of_nat k = 2 * x + 1) by lia.
+            destruct Hcases as [Hc1|Hc1]; [apply (I1 i d Hin Hc1)|apply (I2 i d Hin Hc1)].
+          * right. exists (W k (2 * x)), (W k (2 * x + 1)), (znth T (2 * x)), (znth T (2 * x + 1)).
+            split; [intros Hpair; inversion Hpair; contradiction|exact HW].
+          * right. exists (W k (2 * x)), (W k (2 * x + 1)), (znth T (2 * x)), (znth T (2 * x + 1)).
+            split; [intros Hpair; inversion Hpair; contradiction|exact HW].
+    Qed.
+  End Sound.
+
+  (* an accepted non-trivial proof of the stated height against an honest root claims only actual
+     leafs -- or exhibits a collision of H *)
+  Theorem sound_lemma m (leafs : list D) (p : iproof D) :
+    0 <= ip_height p <= 31 -> zlen leafs = 2 ^ ip_height p -> wf_proof D p ->
+    is_trivial D p = false ->
+    ip_verify D H Deqb m p (znth D dflt (spec_tree D H dflt leafs) 1) = Ok true ->
+    (forall i d, In (i, d) (ip_leafs p) -> i < zlen leafs /\ d = znth D dflt leafs i) \/ collision D H.
+  Proof.
+    intros Hh Hlen Hwf Hnt Hv. apply verify_iff_lemma in Hv; [|exact Hwf].
+    destruct Hv as [Ht|[[S1 [S2 [S3 S4]]] Hval]]; [congruence|].
+    destruct p as [h L A]. cbn [ip_height ip_leafs ip_auth] in *.
+    assert (Hidx : forall i, In i (map fst L) -> 0 <= i < 2 ^ h).
+    { intros i Hi. split; [apply Hwf; exact Hi|apply S2; exact Hi]. }
+    unfold val in Hval.
+    destruct (sound_down leafs h L A Hh Hlen Hidx S4 (Z.to_nat h) 1) as [Hl|Hc]; try lia.
+    - rewrite Z2Nat.id by lia. replace (h - h) with 0 by lia. cbn. lia.
+    - exact Hval.
+    - left. intros i d Hin.
+      assert (Hi : In i (map fst L)) by (apply in_map_iff; exists (i, d); tauto).
+      pose proof (Hidx i Hi). split; [lia|]. apply (Hl i d Hin).
+      rewrite Z2Nat.id by lia. symmetry. apply Z.div_unique with (r := i); lia.
+    - right. exact Hc.
+  Qed.
+End Verify.
+
+(* ---------------------------------------------------------------------------------------------- *)
+(* packaged statements used by props/C04.v and props/C10.v                                         *)
+
+Lemma term_eqb_spec (a b : term) : term_eqb a b = true <-> a = b.
+Proof.
+  revert b. induction a as [k| |l IHl r IHr]; intros [k'| |l' r']; cbn [term_eqb];
+    try (split; [discriminate|discriminate]); try (split; reflexivity).
+  - rewrite Z.eqb_eq. split; [intros ->; reflexivity|intros E; inversion E; reflexivity].
+  - rewrite andb_true_iff, IHl, IHr. split; [intros [-> ->]; reflexivity|intros E; inversion E; split; reflexivity].
+Qed.
+
+Section Packaged.
+  Variable D : Type.
+  Variable H : D -> D -> D.
+  Variable Deqb : D -> D -> bool.
+  Variable dflt : D.
+  Hypothesis Deqb_spec : forall a b, Deqb a b = true <-> a = b.
+
+  (* C10 complete + paths_are_siblings, for every list of in-range indices (any order, repetitions, empty) *)
+  Theorem honest_proofs_lemma (leafs : list D) (h : Z) (idxs : list Z) (m : mmode) :
+    0 <= h <= 31 -> zlen leafs = 2 ^ h -> (forall i, In i idxs -> 0 <= i < 2 ^ h) ->
+    let T := spec_tree D H dflt leafs in
+    exists p,
+      mt_inclusion_proof D true m T idxs = Ok p /\
+      p = MkProof h (map (fun i => (i, znth D dflt leafs i)) idxs)
+                    (map (znth D dflt T) (minimal_list (2 ^ h) idxs)) /\
+      mt_root D T = Ok (znth D dflt T 1) /\
+      ip_verify D H Deqb m p (znth D dflt T 1) = Ok true /\
+      ip_into_authentication_paths D H Deqb m p =
+        Ok (map (fun i => tree_path D dflt T (2 ^ h + i) (Z.to_nat h)) idxs).
+  Proof.
+    intros Hh Hlen Hidx T.
+    assert (Hpow : is_pow2 (zlen leafs) = true) by (apply is_pow2_spec; exists h; split; [lia|exact Hlen]).
+    eexists. split; [apply (honest_proof_eq D H Deqb dflt Deqb_spec leafs h idxs Hh Hlen Hidx m)|].
+    split; [reflexivity|]. split; [apply honest_root; exact Hpow|]. split.
+    - destruct idxs as [|i r] eqn:Ei.
+      + cbn [map]. rewrite minimal_list_nil by (pose proof (Z.pow_pos_nonneg 2 h); lia). reflexivity.
+      + rewrite <- Ei in *. apply (complete_lemma D H Deqb dflt Deqb_spec leafs h idxs Hh Hlen Hidx m). congruence.
+    - apply (honest_paths_lemma D H Deqb dflt Deqb_spec leafs h idxs Hh Hlen Hidx m).
+  Qed.
+
+  (* C10 auth_structure_spec on a constructed tree *)
+  Theorem auth_structure_lemma (leafs : list D) (h : Z) (idxs : list Z) (m : mmode) :
+    0 <= h <= 31 -> zlen leafs = 2 ^ h -> (forall i, In i idxs -> 0 <= i) ->
+    let T := spec_tree D H dflt leafs in
+    (forall i, In i idxs -> i < 2 ^ h) /\
+      mt_authentication_structure D m T idxs = Ok (map (znth D dflt T) (minimal_list (2 ^ h) idxs)) \/
+    (exists i, In i idxs /\ 2 ^ h <= i) /\ mt_authentication_structure D m T idxs = Err.
+  Proof.
+    intros Hh Hlen Hpos T.
+    assert (Hpow : is_pow2 (zlen leafs) = true) by (apply is_pow2_spec; exists h; split; [lia|exact Hlen]).
+    assert (Hn : 1 <= 2 ^ h <= 2147483648).
+    { pose proof (Z.pow_pos_nonneg 2 h). assert (2 ^ h <= 2 ^ 31) by (apply Z.pow_le_mono_r; lia).
+      change (2 ^ 31) with 2147483648 in *. lia. }
+    destruct (existsb (fun i => 2 ^ h <=? i) idxs) eqn:Ex.
+    - right. apply existsb_exists in Ex. destruct Ex as [i [Hi Hni]]. apply Z.leb_le in Hni.
+      split; [exists i; tauto|].
+      unfold mt_authentication_structure, T. rewrite honest_num_leafs by exact Hpow. cbn [obind]. rewrite Hlen.
+      rewrite auth_indices_reject; [reflexivity|lia|unfold USZ; lia|exact Hpos|exists i; tauto].
+    - left. assert (Hidx : forall i, In i idxs -> 0 <= i < 2 ^ h).
+      { intros i Hi. split; [apply Hpos; exact Hi|].
+        destruct (Z_lt_dec i (2 ^ h)) as [Hlt|Hge]; [exact Hlt|]. exfalso.
+        apply not_true_iff_false in Ex. apply Ex. apply existsb_exists. exists i. split; [exact Hi|]. apply Z.leb_le. lia. }
+      split; [intros i Hi; apply Hidx; exact Hi|].
+      apply (honest_auth D H Deqb dflt Deqb_spec leafs h idxs Hh Hlen Hidx m).
+  Qed.
+
+  (* C04 total *)
+  Theorem total_lemma (m : mmode) (p : iproof D) (root : D) : wf_proof D p ->
+    (exists b, ip_verify D H Deqb m p root = Ok b) /\
+    ((exists r, ip_into_authentication_paths D H Deqb m p = Ok r) \/
+     ip_into_authentication_paths D H Deqb m p = Err).
+  Proof.
+    intros Hwf. split; [apply (verify_total_lemma D H Deqb dflt Deqb_spec); exact Hwf|].
+    destruct (paths_spec_lemma D H Deqb dflt Deqb_spec m p Hwf) as [[_ Hp]|[_ Hp]]; rewrite Hp;
+      [left; eexists; reflexivity|right; reflexivity].
+  Qed.
+End Packaged.
+
+Lemma auth_indices_full (m : mmode) (n : Z) (idxs : list Z) :
+  1 <= n -> 2 * n <= USZ -> (forall i, In i idxs -> 0 <= i < n) ->
+  auth_structure_node_indices m n idxs = Ok (minimal_list n idxs) /\
+  StronglySorted Z.gt (minimal_list n idxs) /\
+  forall x, In x (minimal_list n idxs) <-> minimal n idxs x.
+Proof.
+  intros Hn Hn2 Hr. split; [apply auth_indices_eq; assumption|]. apply minimal_list_spec; assumption.
+Qed.
